@@ -10,7 +10,7 @@ from props._cfg_common import TRUSTED, ASSUMPTIONS, TECHNIQUE
 
 PROP = "C20"
 LEVEL = "other"
-THEOREMS = {"Properties.C20": ["C20_symbol_text_roundtrip", "C20_box_certificate", "C20_text_constants_from_source", "C20_grammar_text_roundtrip"]}
+THEOREMS = {"Properties.C20": ["C20_symbol_text_roundtrip", "C20_box_certificate", "C20_text_constants_from_source", "C20_grammar_text_roundtrip", "C20_box_code_path"]}
 LEVEL_TEXT = ("Partial + correspondence: the VAR:/TER: marker logic of to_text/from_text is modelled at token level and its round trip is proved for every "
               "symbol that is not an epsilon spelling; json, string splitting and networkx containers are external and not modelled. All round trips "
               "(automaton, PDA, FST through networkx; grammar through text) are checked for exact structural equality on generated objects, grammars also "
